@@ -50,6 +50,11 @@ ZERO_FLOOR = 1e-6
 SCALE_FLOOR = 0.1
 # relative size of the hyper-parameter change used to measure the rounding sensitivity of gamma-based kernels
 PROBE = 3e-6
+# the probe is one fixed step in one direction per sign and only an estimate: the allowance is this many times the
+# measured response, and cases whose response exceeds ILL_LIMIT of the comparison scale are not judged at all by
+# the relations that compare runs of different batch composition / detector grid (1, 3, 5)
+SENS_FACTOR = 5.0
+ILL_LIMIT = 0.005
 
 _FROZEN = False
 
@@ -667,15 +672,21 @@ def _check_meta(ctx, case):
     # between runs with different batch composition therefore adds the measured response of the same
     # reconstruction to a PROBE (3e-6) relative change of every hyper-parameter (~50 float32 ulp; angles: rad).
     d_stack = d_bf = 0.0
+    ill = False
     if fam in ("ssb", "obf", "mf"):
-        with ctx.sut(case, "from_virtual_bfs + reconstruct(%s), hyper-parameters changed by %g" % (case["kernel"], PROBE)):
-            Sp, Bp = S.run(q, S.build(q, X, "init", soft=soft, perturb=PROBE), sel0, "init", None, deconvolution_kernel=case["kernel"], **kw)
-        _finite(case, "reconstruction (%s)" % fam, Sp, Bp)
-        d_stack = float(np.max(np.abs(Sp - S0)))
-        d_bf = float(np.max(np.abs(Bp - B0))) + math.sqrt(S.nr) * d_stack
-        _note(ctx, "max_rounding_sensitivity_rel:" + fam, d_stack / s_stack)
-        if d_stack > 0.01 * s_stack:
-            ctx.count("ill_conditioned(sensitivity>1%)")
+        m_stack = m_bf = 0.0
+        for sgn in (1.0, -1.0):
+            with ctx.sut(case, "from_virtual_bfs + reconstruct(%s), hyper-parameters changed by %g" % (case["kernel"], sgn * PROBE)):
+                Sp, Bp = S.run(q, S.build(q, X, "init", soft=soft, perturb=sgn * PROBE), sel0, "init", None, deconvolution_kernel=case["kernel"], **kw)
+            _finite(case, "reconstruction (%s)" % fam, Sp, Bp)
+            m_stack = max(m_stack, float(np.max(np.abs(Sp - S0))))
+            m_bf = max(m_bf, float(np.max(np.abs(Bp - B0))))
+        _note(ctx, "max_rounding_sensitivity_rel:" + fam, m_stack / s_stack)
+        ill = m_stack > ILL_LIMIT * s_stack
+        if ill:
+            ctx.count("ill_conditioned(sensitivity>%g): relations 1, 3, 5 not judged" % ILL_LIMIT)
+        d_stack = SENS_FACTOR * m_stack
+        d_bf = SENS_FACTOR * (m_bf + math.sqrt(S.nr) * m_stack)
 
     # (1) schedule invariance, on one re-used instance, hyper-parameters by the drawn route, second kernel name
     with ctx.sut(case, "from_virtual_bfs"):
@@ -705,7 +716,14 @@ def _check_meta(ctx, case):
         _cmp(ctx, case, "history", Sh, Sf, s_h, TOL_BATCH, "corrected_stack, " + what)
         _cmp(ctx, case, "history", Bh, Bf, float(np.max(np.abs(Bf))) + s_h, TOL_BATCH, "corrected_bf, " + what)
         ctx.count("history_calls")
-    for bs in batches:
+    # the main call on the used instance with the batch layout of the fresh-instance run: identical kernel factors,
+    # no rounding allowance (this is what shows state left behind by the history even in ill-conditioned cases)
+    with ctx.sut(case, "reconstruct(max_batch_size=None) on the used instance"):
+        Sb, Bb = S.run(q, dpb, S.sel, S.route, None, deconvolution_kernel=case["kernel2"], **kw)
+    what = "kernel %s, %d pixels: used instance (%d earlier calls, hyper-parameters by route %r) vs fresh instance, both un-batched" % (fam, S.nr, len(hist), S.route)
+    _cmp(ctx, case, "reuse", Sb, S0, s_stack, TOL_BATCH, "corrected_stack, " + what)
+    _cmp(ctx, case, "reuse", Bb, B0, s_bf, TOL_BATCH, "corrected_bf, " + what)
+    for bs in [] if ill else batches:
         with ctx.sut(case, "reconstruct(max_batch_size=%d)" % bs):
             Sb, Bb = S.run(q, dpb, S.sel, S.route, bs, deconvolution_kernel=case["kernel2"], **kw)
         what = "kernel %s, %d pixels, max_batch_size=%d vs max_batch_size=None on a fresh instance" % (fam, S.nr, bs)
@@ -713,7 +731,7 @@ def _check_meta(ctx, case):
         _cmp(ctx, case, "batch", Bb, B0, s_bf, TOL_BATCH, "corrected_bf, " + what, d_bf)
 
     # (5) the sub-mask reconstruction is a function of the sub-stack and the sub-mask alone
-    if S.sub is not None:
+    if S.sub is not None and not ill:
         sub_px = [S.px[i] for i in S.sel]
         with ctx.sut(case, "from_virtual_bfs(sub-mask, sub-stack) + reconstruct"):
             dpc = S.build(q, X[S.sel], "init", px=sub_px, soft=soft, crop=False)
@@ -750,7 +768,7 @@ def _check_meta(ctx, case):
     # (3) complementary sub-masks recombine, single-pass kernels.  (soft_edges=False instances still normalise
     # by the soft-aperture weight; which weight the statement means there is not settled, so such instances are
     # only judged when every pixel is fully inside the aperture: weight 1 under both readings)
-    if fam in R.SINGLE_PASS and (soft or bool(np.all(w_sel == 1.0))):
+    if fam in R.SINGLE_PASS and (soft or bool(np.all(w_sel == 1.0))) and not ill:
         pa = sorted({int(v) for v in case["part"] if 0 <= int(v) < S.nr})
         pb = [i for i in range(S.nr) if i not in set(pa)]
         if pa and pb:
